@@ -151,16 +151,18 @@ type setG struct {
 }
 
 type universe struct {
-	v6        bool
-	stress    bool // long CIDR / port lists, so that programs are split in the middle of a rule
-	keyStress bool // rules with several IP-set-type lookups on one leg (selector set, then ports, then named-port set)
-	cidrs     []cidrT
-	other     []cidrT
-	netSets   []setG
-	portSets  []setG
-	ranges    [][2]int
-	icmps     [][2]int
-	ids       map[string]uint64
+	v6         bool
+	stress     bool // long CIDR / port lists, so that programs are split in the middle of a rule
+	family     bool // the CIDR pool holds nested CIDRs sharing a base address
+	cidrStress bool // rules whose CIDR lists are arrangements of the nested family
+	keyStress  bool // rules with several IP-set-type lookups on one leg (selector set, then ports, then named-port set)
+	cidrs      []cidrT
+	other      []cidrT
+	netSets    []setG
+	portSets   []setG
+	ranges     [][2]int
+	icmps      [][2]int
+	ids        map[string]uint64
 }
 
 func (u *universe) GetNoAlloc(id string) uint64 { return u.ids[id] }
@@ -169,6 +171,9 @@ func newUniverse(r *rng, v6 bool) *universe {
 	u := &universe{v6: v6, ids: map[string]uint64{}}
 	for i := 0; i < 6; i++ {
 		u.cidrs = append(u.cidrs, randCIDR(r, v6))
+	}
+	if r.pct(65) {
+		u.addFamily(r)
 	}
 	for i := 0; i < 2; i++ {
 		u.other = append(u.other, randCIDR(r, !v6))
@@ -216,6 +221,29 @@ func newUniverse(r *rng, v6 bool) *universe {
 	u.ranges = [][2]int{{80, 80}, {443, 443}, {8080, 8090}, {0, 1023}, {1, 1}, {0, 0}, {65535, 65535}, {1024, 65535}, {53, 53}, {100, 200}}
 	u.icmps = [][2]int{{8, 0}, {0, 0}, {3, 1}, {3, 4}, {128, 0}, {135, 0}, {255, 255}}
 	return u
+}
+
+// CIDR families: several pool entries share one base address with different prefix lengths (so that rule lists hold
+// nested CIDRs in both orders, narrow-then-broad and broad-then-narrow), plus a nested CIDR with another base.
+func (u *universe) addFamily(r *rng) {
+	var plens []int
+	if u.v6 {
+		plens = []int{7, 16, 31, 32, 33, 48, 64, 65, 96, 112, 127, 128}
+	} else {
+		plens = []int{1, 8, 12, 16, 22, 24, 25, 30, 31, 32}
+	}
+	lo := r.intn(len(plens) - 2)
+	base := mkCIDR(u.v6, randAddr(r, u.v6), plens[lo])
+	fam := []cidrT{base}
+	for k := 0; k < 2; k++ {
+		fam = append(fam, mkCIDR(u.v6, base.addr, plens[lo+1+r.intn(len(plens)-lo-1)]))
+	}
+	// a CIDR nested in the broad one with a different base (its last sub-block)
+	fam = append(fam, mkCIDR(u.v6, base.last(), plens[lo+1+r.intn(len(plens)-lo-1)]))
+	for k, c := range fam {
+		u.cidrs[k] = c
+	}
+	u.family = true
 }
 
 func (u *universe) setsCoq() string {
@@ -286,7 +314,7 @@ func (u *universe) genProto(r *rng, want int, allowRareNames bool, forceRare boo
 
 func (u *universe) pickCIDRs(r *rng) ([]string, []string) {
 	var txt, cq []string
-	n := 1 + r.intn(3)
+	n := 1 + r.intn(4)
 	if u.stress {
 		n = 3 + r.intn(4)
 	}
@@ -604,6 +632,48 @@ func (u *universe) coqOfRule(pr *proto.Rule) string {
 	return fmt.Sprintf("(Build_brule %s %s %s)", rule, pnC, npnC)
 }
 
+// genCIDRRule: one or two CIDR-list fields (src/dst, positive/negated) whose entries are arrangements of the nested
+// family (pool slots 0..3): narrow-then-broad, broad-then-narrow, duplicates, a nested CIDR with another base, and
+// sometimes an unrelated pool entry.  Little else, so that the lists decide the rule.
+func (u *universe) genCIDRRule(r *rng, action string) ruleG {
+	pr := &proto.Rule{Action: action}
+	crit := 0
+	if r.pct(25) {
+		pr.Protocol = &proto.Protocol{NumberOrName: &proto.Protocol_Number{Number: int32([]int{6, 17}[r.intn(2)])}}
+		crit++
+	}
+	list := func() []string {
+		n := 2 + r.intn(3)
+		var out []string
+		for i := 0; i < n; i++ {
+			c := u.cidrs[r.intn(4)]
+			if r.pct(12) {
+				c = u.cidrs[4+r.intn(len(u.cidrs)-4)]
+			}
+			out = append(out, c.String())
+		}
+		if r.pct(20) {
+			out = append(out, out[r.intn(len(out))]) // duplicate
+		}
+		return out
+	}
+	nf := 1 + r.intn(2)
+	for k := 0; k < nf; k++ {
+		switch r.intn(4) {
+		case 0:
+			pr.SrcNet = list()
+		case 1:
+			pr.NotSrcNet = list()
+		case 2:
+			pr.DstNet = list()
+		case 3:
+			pr.NotDstNet = list()
+		}
+		crit++
+	}
+	return ruleG{pr: pr, coq: u.coqOfRule(pr), criteria: crit}
+}
+
 // genKeyRule: a rule whose code performs SEVERAL IP-set-type lookups with the same on-stack key (one leg): a selector
 // set (positive and/or negated, or an IP+port set), then a port match with 0-6 numeric ranges (each a possible split
 // point) and 1-2 named-port sets (positive or negated).  Little else, so that those lookups decide the rule.
@@ -763,6 +833,9 @@ func (g *caseGen) genRules(profile bool) ([]polprog.Rule, []string) {
 		rg := g.u.genRule(g.r, a, f)
 		if g.u.keyStress && !profile && g.r.pct(65) {
 			rg = g.u.genKeyRule(g.r, a)
+		}
+		if g.u.cidrStress && g.r.pct(65) {
+			rg = g.u.genCIDRRule(g.r, a)
 		}
 		g.matchID++
 		rs = append(rs, polprog.Rule{Rule: rg.pr, MatchID: g.matchID})
@@ -1030,11 +1103,20 @@ func (g *caseGen) netEdge(nets []string) (*big.Int, bool) {
 	if len(cands) == 0 {
 		return nil, false
 	}
+	// boundary set of the list: first / last address of an entry, and the addresses just outside it (which, for
+	// nested entries, are inside the broader and outside the narrower one)
 	c := cands[g.r.intn(len(cands))]
-	if g.r.pct(50) {
+	one := big.NewInt(1)
+	switch g.r.intn(6) {
+	case 0, 1:
 		return c.first(), true
+	case 2, 3:
+		return c.last(), true
+	case 4:
+		return modW(g.u.v6, new(big.Int).Add(c.last(), one)), true
+	default:
+		return modW(g.u.v6, new(big.Int).Sub(c.first(), one)), true
 	}
-	return c.last(), true
 }
 
 func (g *caseGen) setByName(name string) *setG {
@@ -1092,6 +1174,12 @@ func (g *caseGen) aim(pr *proto.Rule, p probeT) probeT {
 		p.src = a
 	} else if a, ok := g.netSetEdge(pr.SrcIpSetIds); ok {
 		p.src = a
+	}
+	if a, ok := g.netEdge(pr.NotSrcNet); ok && (len(pr.SrcNet) == 0 || g.r.pct(40)) {
+		p.src = a // boundary of a negated list: excluded just inside, admitted just outside
+	}
+	if a, ok := g.netEdge(pr.NotDstNet); ok && (len(pr.DstNet) == 0 || g.r.pct(40)) {
+		p.post = a
 	}
 	if m, ok := g.portMember(pr.SrcNamedPortIpSetIds); ok && (len(pr.SrcPorts) == 0 || g.r.pct(50)) {
 		// the verdict then hangs on the named-port lookup (in the key-stress stream the member also lies in the selector sets)
@@ -1206,6 +1294,12 @@ func main() {
 			u.keyStress = true
 			u.nestPortMembers(r)
 		}
+		if g.feat == "" && !u.stress && !u.keyStress && r.pct(20) {
+			u.cidrStress = true
+			if !u.family {
+				u.addFamily(r)
+			}
+		}
 		var tags []string
 		rules := polprog.Rules{NoProfileMatchID: 999999}
 		var tiersC, profC, preC, fwdC, normC, hprofC = "nT", "nPr", "nT", "nT", "nT", "nPr"
@@ -1250,6 +1344,12 @@ func main() {
 			rules.SuppressNormalHostPolicy = r.pct(10)
 			tags = append(tags, "shape:xdp")
 		}
+		if u.family {
+			tags = append(tags, "cidrs:nested-family")
+		}
+		if u.cidrStress {
+			tags = append(tags, "cidrs:nested-list-stress")
+		}
 		if g.invalid {
 			tags = append(tags, "domain:outside")
 		}
@@ -1285,7 +1385,7 @@ func main() {
 			opts = append(opts, polprog.WithTrampolineStride(12+r.intn(80)))
 			tags = append(tags, "asm-trampolines")
 		}
-		if r.pct(30) {
+		if r.pct(30) && !u.keyStress {
 			opts = append(opts, polprog.WithFlowLogs())
 			tags = append(tags, "flowlogs")
 		}
@@ -1317,7 +1417,7 @@ func main() {
 			}
 			limits = nil
 			for k := 0; k < 3; k++ {
-				limits = append(limits, 2+r.intn(total))
+				limits = append(limits, 3+r.intn(total)) // (limits 2..3 make dozens of sub-programs; the mid-rule-stress stream has them)
 			}
 		}
 		baseOpts, baseTags := opts, tags
